@@ -97,9 +97,15 @@ impl Ctx {
 
     /// Mark the start of a case (crash attribution + CPU watchdog).
     pub fn begin_case(&mut self, case: u64) {
+        self.begin_case_labeled(case, "");
+    }
+
+    /// Like begin_case, with a short label that becomes part of the signature if the process
+    /// dies (abort / CPU budget) while running this case.
+    pub fn begin_case_labeled(&mut self, case: u64, label: &str) {
         super::watchdog::begin_case(case);
         if let Some(p) = &self.cur_file {
-            let _ = std::fs::write(p, case.to_string());
+            let _ = std::fs::write(p, format!("{}\t{}", case, label));
         }
         if self.last_flush.elapsed().as_secs() >= 3 {
             self.flush();
